@@ -77,6 +77,7 @@ func init() {
 			out = append(out, Instance{Scenario: "c12_duringopen", Params: mustJSON(struct{}{}), Bound: b, Shards: 4, Note: "a started session never silently covers only part of the assignment: a stream ending while Open() still waits for another vBucket is re-opened or counted"})
 			out = append(out, Instance{Scenario: "c15_reopen_fault", Params: mustJSON(struct{}{}), Bound: 0, Note: "load failures at the start-up that ends a rebalance"})
 			out = append(out, Instance{Scenario: "c08_endincatchup", Params: mustJSON(struct{}{}), Bound: 0, Note: "a transient end while the stream catches up after a rollback is re-opened (or fatal after the bounded retries) - never a session that silently goes on without the vBucket"})
+			out = append(out, Instance{Scenario: "reopen_life", Params: mustJSON(LifeParams{Oracle: "delivery", Segs: 1, RetryAck: true}), Bound: 0, Shards: 4, Note: "a rejected first re-open attempt, acknowledgements and a successful save during the pause: the loop carries on and the vBucket is re-opened (never a session that goes on without it)"})
 			out = append(out, Instance{Scenario: "c15_finite_reopenfail", Params: mustJSON(struct{}{}), Bound: 0, Note: "finite mode: a vBucket in its re-open loop while the others reach their end bound - the run completes with it or fails, never without it"})
 			out = append(out, Instance{Scenario: "c15_slowfail", Params: mustJSON(struct{}{}), Bound: b, Shards: 4, Note: "the failing stream request is the last one to complete: every schedule within the bound"})
 			out = append(out, Instance{Scenario: "c02_sessions", Params: mustJSON(SessionsParams{ReadOnly: true, Flushed: true}), Bound: 0, Shards: 2, Note: "read-only metadata, second / third session of one process: a checkpoint that lies beyond the high seqno when the vBucket is (re-)assigned terminates the client - loads are fresh reads also for gained vBuckets"})
